@@ -258,6 +258,9 @@ pub fn build(id: &str, tier: &str, seed: u64, threads: usize) -> Option<Plan> {
                 cases.push(b.spec.clone());
                 if b.spec.role == Role::Send {
                     fam_stale_timing(b, if q { 2 } else { 4 }, &mut cases);
+                    if b.spec.nblocks() <= 2 * b.spec.w as u64 + 1 || !q {
+                        fam_stale_pairs(b, &mut cases);
+                    }
                     fam_ack_patterns(b, &mut cases);
                     if b.spec.w <= 8 || b.spec.nblocks() <= 6 {
                         fam_bogus_acks(b, &mut rng, &mut cases);
